@@ -68,6 +68,17 @@ prop('C06',
           '(exact result or refusal exactly when out of +/-(2^63-1) ms; result invariant on every path; truncation toward zero; '
           'division within 2 ns); the derived ordering is proved equal to numeric order by Kani + a Verus lemma.')
 
+prop('C17',
+     title='Rounding and truncation land on the right multiple',
+     verus=['round'],
+     uncovered=['impl DurationRound for DateTime<Tz> (delegation through naive_local and the generic functions at T = DateTime<Tz>)',
+                'SubsecRound at types other than NaiveDateTime; leap-second inputs (only absence of overflow is proved for them)',
+                'Display for RoundingError'],
+     text='Verus proves duration_trunc/duration_round/duration_round_up (generic text monomorphised at NaiveDateTime) against floor / ceiling / nearest-with-ties-up '
+          'multiples of the span counted from the Unix epoch, the exact error cases (non-positive span, span or timestamp not expressible in i64 nanoseconds), '
+          'no overflow of the final +/- (the i64 window lies inside the date range), span_for_digits = 10^(9-min(9,d)) for every u16, round_subsecs/trunc_subsecs '
+          'with carry into the next second; idempotence / less-than-one-span / fixed points as lemmas.')
+
 prop('C19',
      title='Weekday, Month and weekday-set algebra is consistent',
      kani=['vk_weekday_cycle', 'vk_weekday_numbering', 'vk_weekday_try_from_u8', 'vk_weekday_from_primitive',
@@ -87,7 +98,7 @@ prop('C19',
 NOT_APPLICABLE = {
     'C04': 'not built yet', 'C05': 'not built yet',
     'C08': 'not built yet', 'C10': 'not built yet', 'C12': 'not built yet',
-    'C14': 'not built yet', 'C15': 'not built yet', 'C16': 'not built yet', 'C17': 'not built yet',
+    'C14': 'not built yet', 'C15': 'not built yet', 'C16': 'not built yet',
     'C09': 'print->parse round trip lives in core::fmt and &str scanning with iterator adapters: no function contract within reach of Verus (no str bytes) and only bounded exploration in Kani, which is another technique',
     'C11': 'RFC 2822 reader/writer is a hand-written scanner over arbitrary strings (comments, name tables, String building): only bounded string exploration is possible',
     'C13': 'format/parse inverse over a family of format strings: same reason as C09',
